@@ -1,16 +1,28 @@
 #!/usr/bin/env python3
 """sc32_bounds.py — interval analysis and proof-text generator for the 32-bit scalar backend
-(ref10 sc_reduce / sc_muladd as modelled in lean/CxVerif/Impl/Scalar32.lean: `reduce_limbs`, `muladd_limbs`).
+(ref10 sc_reduce / sc_muladd as modelled in lean/CxVerif/Impl/Scalar32.lean: `reduce_limbs`, `muladd_limbs`, `pack`,
+the loads of `reduce_from_wide_bytes` / `muladd`).
 
     python3 tools/sc32_bounds.py            print the stage-by-stage worst-case intervals (interval arithmetic) and
-                                            check every checked i64 operation against [-2^63, 2^63)
-    python3 tools/sc32_bounds.py --emit     additionally (re)write the generated Lean file
-                                            lean/CxVerif/Proofs/Scalar32ReduceB.lean (stage lemmas)
-                                            lean/CxVerif/Proofs/Scalar32MuladdA.lean (stage lemmas of the muladd prefix)
+                                            check every checked i64 operation against [-2^63, 2^63); also checks
+                                            the numeric claim behind the final range (|value after T5| < 2^252)
+    python3 tools/sc32_bounds.py --emit     additionally (re)write the GENERATED Lean files
+        lean/CxVerif/Proofs/Scalar32ReduceB.lean   stage lemmas T1..T8 of the reduction tail, the final-range lemmas,
+                                                   `tail_value`, and their composition `reduce_limbs_spec`
+        lean/CxVerif/Proofs/Scalar32ReduceC.lean   the loads as radix-2^21 digits (`wlimb_i`, `nlimb11`), the 32 bytes
+                                                   of `pack` (`pack_b_j`, `pack_spec`)
+        lean/CxVerif/Proofs/Scalar32MuladdA.lean   the 23 checked columns (`col_k`), stages M1..M3 of the sc_muladd
+                                                   prefix and the composition `muladd_limbs_spec`
+    (hand-written companions: Scalar32ReduceA.lean = single statements, Scalar32Reduce.lean / Scalar32Muladd.lean = bytes
+    ↔ limbs and the two top theorems.)
 
 The program text of every stage lemma is cut from the `def` of the model itself (so the lemma's left-hand side is
 literally the model's statement sequence); the stage bounds in the lemma statements are the intervals computed here
 (inputs rounded up to ±2^k, outputs exact), which makes them the TRUE ones: `omega` re-proves each of them in Lean.
+A stage lemma has the continuation form  ∃ outputs, bounds ∧ value relation ∧ ∀ k, (stage; k outputs') = k outputs,
+i.e. "no checked operation of the stage fails, whatever follows".  Fold stages are applied by `rw` (higher-order
+pattern unification finds `k`); for carry stages the generator passes `k` (= the remaining program text) explicitly,
+because the unifier eta-expands the tuple matches `let (s, sn) ← carryR …` to projections.
 
 Stages of the shared reduction tail (`reduce_limbs` = the text from `s11 += s23 * 666643` to the end):
   T1 fold s23..s18 into s6..s16      T2 rounded carries s6..s16 (two interleaved rounds)
@@ -18,6 +30,7 @@ Stages of the shared reduction tail (`reduce_limbs` = the text from `s11 += s23 
   T5 fold s12 into s0..s5            T6 floor carries s0..s11 -> s12 (sequential)
   T7 fold s12 into s0..s5            T8 floor carries s0..s10 -> s11 (sequential)
 Stages of the `muladd_limbs` prefix: M1 the 23 checked column sums, M2 rounded carries (even limbs), M3 (odd limbs).
+The tail-entry bounds are the union of what `reduce_from_wide_bytes` (digits, top limb < 2^29) and M3 deliver.
 """
 import os, re, sys
 
@@ -193,19 +206,6 @@ def pw(v, e):
     return v if e == 0 else "%s * 2^%d" % (v, e)
 
 
-class Sym:
-    """symbolic execution of one stage, mirroring exactly the terms the rewriting lemmas produce"""
-    def __init__(self, inputs):
-        self.expr = {v: v for v in inputs}      # var -> Lean term text
-        self.iv = dict(inputs)                  # var -> interval
-        self.lines = []                         # proof lines before `refine`
-        self.rw = []                            # rewriting lines of the CPS goal
-        self.nc = 0
-
-    def atom(self, e):
-        return e if re.match(r"^\w+$", e) else "(" + e + ")"
-
-
 def gen_fold_stage(name, stmts, inp, doc):
     """fold stage: groups of six mac/msc with one source each"""
     assert len(stmts) % 6 == 0
@@ -264,7 +264,7 @@ def gen_fold_stage(name, stmts, inp, doc):
     return "\n".join(txt), outs
 
 
-def gen_carry_stage(name, stmts, inp, doc, last_free=True):
+def gen_carry_stage(name, stmts, inp, doc):
     """carry stage (carryR or carryF statements)"""
     vars_ = []
     for st in stmts:
@@ -347,11 +347,6 @@ set_option linter.unusedVariables false
 '''
 
 
-def tail_stages(stmts):
-    st = [s for s in split_stages(stmts)]
-    return st
-
-
 def analyse(verbose=True):
     red = parse_body("reduce_limbs")
     mul = parse_body("muladd_limbs")
@@ -370,17 +365,23 @@ def analyse(verbose=True):
     for p in "abc":
         for i in range(12):
             menv["%s%d" % (p, i)] = (0, 2**21 - 1) if i < 11 else (0, 2**25 - 1)
-    trace = []
-    m_after = run_intervals(pre, menv, trace)
+    # M1 exact, then M2 / M3 with inputs rounded to ±2^k exactly as the stage lemmas state them
+    m1 = run_intervals(pre_stages[0][1], menv)
+    m1 = {v: m1[v] for v in ["s%d" % i for i in range(23)]}
+    m1["s23"] = (0, 0)
+    m2 = run_intervals(r1, rounded(m1))
+    m3 = dict(m2)
+    m3.update(run_intervals(r2, rounded({v: m2[v] for v in ["s%d" % i for i in range(1, 23)]})))
+    m_after = m3
     # inputs of reduce: 23 masked limbs and the top one
     renv = {"s%d" % i: ((0, 2**21 - 1) if i < 23 else (0, 2**29 - 1)) for i in range(24)}
     tail_in = {v: union(renv[v], m_after[v]) for v in renv}
     tail_in_r = rounded(tail_in)
     if verbose:
         print("== muladd prefix (inputs a_i, b_i, c_i in [0,2^21), a11, b11, c11 in [0,2^25))")
-        for k, sts in [("M1 column sums", pre_stages[0][1]), ("M2 carry round 1", r1), ("M3 carry round 2", r2)]:
-            print("  after", k)
-        print("   s_i after M3:", " ".join("s%d%s" % (i, fmt_iv(m_after["s%d" % i])) for i in range(24)))
+        print("  M1 out:", " ".join("s%d%s" % (i, fmt_iv(m1["s%d" % i])) for i in range(23)))
+        print("  M2 out:", " ".join("s%d%s" % (i, fmt_iv(m2["s%d" % i])) for i in range(24)))
+        print("  M3 out:", " ".join("s%d%s" % (i, fmt_iv(m3["s%d" % i])) for i in range(24)))
         print("== tail entry (union of both callers), rounded to ±2^k:")
         print("  ", " ".join("s%d:±2^%d" % (i, pow2_cover(tail_in["s%d" % i])) for i in range(24)))
     return red, pre_stages, r1, r2, menv, tail_in_r
@@ -570,6 +571,127 @@ def gen_tail_spec(tail_in_r):
     return "\n".join(t)
 
 
+HEADER_M = '''/-
+  Proofs.Scalar32MuladdA — GENERATED by tools/sc32_bounds.py --emit (do not edit by hand).
+  The prefix of `muladd_limbs` (ref10 sc_muladd) of Impl/Scalar32.lean before the shared reduction tail:
+    * `col_k`: the k-th checked column sum `sum64o [some c_k, mul64 a_0 b_k, …]` succeeds (every product and every
+      partial sum inside i64) and equals the integer column, with its bound
+    * `M1`: the 23 columns in continuation form; Σ col_k·2^(21k) = (Σ a_i·2^(21i))·(Σ b_j·2^(21j)) + Σ c_k·2^(21k) (by `ring`)
+    * `M2`, `M3`: the two rounds of rounded carries (even limbs, then odd limbs)
+    * `muladd_limbs_spec`: composition with `reduce_limbs_spec` (the tail of `muladd_limbs` IS `reduce_limbs`)
+  Operand limbs: eleven 21-bit digits and a top digit below 2^25 (any 32-byte string).
+-/
+import CxVerif.Proofs.Scalar32ReduceB
+import Mathlib.Tactic.Ring
+namespace Cx.Proofs.Scalar32
+open Cx Cx.Impl.Scalar32
+open Cx.Impl.Fe32 (mul64)
+open Cx.Proofs.Fe32 (some_bind)
+set_option maxRecDepth 100000
+set_option exponentiation.threshold 600
+set_option linter.unusedVariables false
+set_option linter.unusedSimpArgs false
+
+'''
+
+
+def opbnd(p):
+    return " ∧ ".join("(0 ≤ %s%d ∧ %s%d < 2^%d)" % (p, i, p, i, 21 if i < 11 else 25) for i in range(12))
+
+
+def emit_muladd(pre_stages, r1, r2, menv, tail_in_r):
+    sums = pre_stages[0][1]
+    A, B, C = vs("a", range(12)), vs("b", range(12)), vs("c", range(12))
+    out = []
+    cols = []
+    env = dict(menv)
+    for st in sums:
+        _, d, terms, line = st
+        k = idx(d)
+        ex, acc = [], None
+        for t in terms:
+            if t[0] == "c":
+                ex.append(t[1]); v = env[t[1]]
+            else:
+                ex.append("%s * %s" % (t[1], t[2])); v = chk(imul(env[t[1]], env[t[2]]), line)
+            acc = v if acc is None else chk(iadd(acc, v), line)
+        cols.append((k, terms, ex, acc, line))
+        cvar = [t[1] for t in terms if t[0] == "c"]
+        prods = [t for t in terms if t[0] == "mul"]
+        lst = ", ".join(("some %s" % t[1]) if t[0] == "c" else "mul64 %s %s" % (t[1], t[2]) for t in terms)
+        assert "let %s ← sum64o [%s]" % (d, lst) == line
+        total = " + ".join(ex)
+        out.append("theorem col%d (%s %s%s : Int) (ha : %s) (hb : %s)%s :" % (
+            k, sp(A), sp(B), "".join(" " + c for c in cvar), opbnd("a"), opbnd("b"),
+            "".join(" (hc : 0 ≤ %s ∧ %s < 2^%d)" % (c, c, 21 if idx(c) < 11 else 25) for c in cvar)))
+        out.append("    sum64o [%s] = some (%s) ∧ (0 ≤ %s ∧ %s ≤ %d) := by" % (lst, total, total, total, acc[1]))
+        for t in prods:
+            X = 2**21 if idx(t[1]) < 11 else 2**25
+            Y = 2**21 if idx(t[2]) < 11 else 2**25
+            out.append("  have p_%s_%s := mul_bnd %s %s %d %d (by omega) (by omega)" % (t[1], t[2], t[1], t[2], X - 1, Y - 1))
+        out.append("  rw [%s]" % ", ".join("mul64_some %s %s (by omega)" % (t[1], t[2]) for t in prods))
+        nn = "by simp only [AllNonneg, and_true]; omega" if len(ex) > 1 else "by simp only [AllNonneg]"
+        out.append("  exact ⟨sum64o_eval (%s) [%s] (by omega) (%s) (by simp only [List.foldl]; omega), by omega⟩" % (
+            ex[0], ", ".join(ex[1:]), nn))
+        out.append("")
+    # M1
+    ovars = vs("o", range(23))
+    prog = "\n".join("        " + c[4] for c in cols)
+    out.append("/-- M1: the 23 checked column sums of the schoolbook product plus `c` -/")
+    out.append("theorem M1 (%s %s %s : Int) (ha : %s) (hb : %s) (hc : %s) :" % (sp(A), sp(B), sp(C), opbnd("a"), opbnd("b"), opbnd("c")))
+    out.append("    ∃ %s : Int, (%s) ∧" % (sp(ovars), " ∧ ".join(bnd("o%d" % c[0], c[3]) for c in cols)))
+    out.append("      (lin23 %s = lin12 %s * lin12 %s + lin12 %s) ∧" % (sp(ovars), sp(A), sp(B), sp(C)))
+    out.append("      ∀ {β} (k : %s → Option β),\n        (do\n%s\n        k %s) = k %s := by" % (
+        " → ".join(["Int"] * 23), prog, sp(vs("s", range(23))), sp(ovars)))
+    for c in cols:
+        cv = [t[1] for t in c[1] if t[0] == "c"]
+        out.append("  have h%d := col%d %s %s%s ha hb%s" % (c[0], c[0], sp(A), sp(B), "".join(" " + x for x in cv), "".join(" (by omega)" for x in cv)))
+    out.append("  refine ⟨%s, ?_, ?_, fun k => ?_⟩" % ", ".join(" + ".join(c[2]) for c in cols))
+    out.append("  · exact ⟨%s⟩" % ", ".join("h%d.2" % c[0] for c in cols))
+    out.append("  · unfold lin23 lin12; ring")
+    out.append("  · rw [%s]" % ", ".join("h%d.1, some_bind" % c[0] for c in cols))
+    out.append("")
+    m1 = {"s%d" % c[0]: c[3] for c in cols}
+    m1["s23"] = (0, 0)
+    txt2, m2 = gen_carry_stage("M2", r1, rounded(m1), "M2: the twelve rounded carries out of the even limbs s0, s2, …, s22 (s23 enters as 0)")
+    env3 = {v: m2[v] for v in vs("s", range(1, 23))}
+    txt3, m3 = gen_carry_stage("M3", r2, rounded(env3), "M3: the eleven rounded carries out of the odd limbs s1, s3, …, s21")
+    out.append(txt2)
+    out.append(txt3)
+    # composition
+    fin = dict(m2); fin.update(m3)
+    for v in fin:
+        assert inside(fin[v], tail_in_r[v]), (v, fin[v], tail_in_r[v])
+    M, N_, R = vs("m", range(23)), vs("n", range(24)), vs("r", range(1, 23))
+    out.append("set_option maxHeartbeats 400000 in")
+    out.append("/-- **sc_muladd on limbs**: for operand limbs of ANY three 32-byte strings no checked i64 operation overflows, the")
+    out.append("    result is fully carried, lies in [0, L) and is congruent to a·b + c modulo L -/")
+    out.append("theorem muladd_limbs_spec (%s %s %s : Int) (ha : %s) (hb : %s) (hc : %s) :" % (sp(A), sp(B), sp(C), opbnd("a"), opbnd("b"), opbnd("c")))
+    out.append("    ∃ (t : S12) (q : Int), muladd_limbs %s %s %s = some t ∧ Digits12 t ∧" % (sp(A), sp(B), sp(C)))
+    out.append("      val12 t = lin12 %s * lin12 %s + lin12 %s - LI * q ∧ (0 ≤ val12 t ∧ val12 t < LI) := by" % (sp(A), sp(B), sp(C)))
+    out.append("  obtain ⟨%s, hb1, hv1, hk1⟩ := M1 %s %s %s ha hb hc" % (", ".join(M), sp(A), sp(B), sp(C)))
+    out.append("  replace hv1 := Hide.mk hv1")
+    out.append("  obtain ⟨%s, hb2, hv2, hk2⟩ := M2 %s 0 (by omega)" % (", ".join(N_), sp(M)))
+    out.append("  replace hv2 := Hide.mk hv2")
+    out.append("  obtain ⟨%s, hb3, hv3, hk3⟩ := M3 %s (by omega)" % (", ".join(R), sp(N_[1:23])))
+    out.append("  replace hv3 := Hide.mk hv3")
+    out.append("  obtain ⟨t, q, ht, hd, hv, hr⟩ := reduce_limbs_spec n0 %s n23 (by omega)" % sp(R))
+    out.append("  refine ⟨t, q, ?_, hd, ?_, hr⟩")
+    out.append("  · unfold muladd_limbs")
+    out.append("    rw [hk1]")
+    S = vs("s", range(24))
+    out.append("    refine (hk2 (fun %s => do\n%s\n        reduce_limbs %s)).trans ?_" % (sp(S), "\n".join("        " + st[-1] for st in r2), sp(S)))
+    out.append("    refine (hk3 (fun %s => reduce_limbs n0 %s n23)).trans ?_" % (sp(S[1:23]), sp(S[1:23])))
+    out.append("    exact ht")
+    out.append("  · have e1 := hv1.h; have e2 := hv2.h; have e3 := hv3.h")
+    out.append("    generalize lin12 %s * lin12 %s + lin12 %s = P at e1 ⊢" % (sp(A), sp(B), sp(C)))
+    out.append("    rw [hv]")
+    out.append("    unfold lin23 at e1; unfold lin24 at e2 ⊢; unfold lin22 at e3")
+    out.append("    omega")
+    out.append("")
+    return HEADER_M + "\n".join(out) + "\nend Cx.Proofs.Scalar32\n"
+
+
 OUT_C = os.path.join(HERE, "..", "lean", "CxVerif", "Proofs", "Scalar32ReduceC.lean")
 
 HEADER_C = '''/-
@@ -687,6 +809,8 @@ def main():
         print("wrote", os.path.normpath(OUT_A))
         open(OUT_C, "w").write(emit_pack())
         print("wrote", os.path.normpath(OUT_C))
+        open(OUT_M, "w").write(emit_muladd(pre_stages, r1, r2, menv, tail_in_r))
+        print("wrote", os.path.normpath(OUT_M))
 
 
 if __name__ == "__main__":
